@@ -1,0 +1,11 @@
+//go:build verif
+
+package installer
+
+import securejoin "github.com/cyphar/filepath-securejoin"
+
+// VerifSecureJoin exposes the securejoin.SecureJoin this package links against to the
+// verification harness.
+func VerifSecureJoin(root, unsafePath string) (string, error) {
+	return securejoin.SecureJoin(root, unsafePath)
+}
